@@ -166,6 +166,10 @@ def probes(r, fmt, tier):
         P.append(("pathname", "flat%d" % n, X(path=flat(n)), False))
     for n in [101, 155, 197, 256, 257, 300, 1000]:
         P.append(("pathname", "deep%d" % n, X(path=deep(n)), False))
+    # directories: the writers append a '/' to the stored name, which counts against the field too
+    for n in [98, 99, 100, 101, 154, 155, 156, 255, 256] + ([65533, 65534, 65535, 65536] if fmt not in ("iso9660",) else []):
+        P.append(("pathname", "dir%d" % n, X(path=flat(n, b"d")[:n], mode=DIR | 0o755, size=0, body=b""), False))
+        P.append(("pathname", "dirslash%d" % n, X(path=flat(n - 1, b"d")[:n - 1] + b"/", mode=DIR | 0o755, size=0, body=b""), False))
     P.append(("pathname", "with-space", X(path=b"a b.txt"), False))
     # ustar splits this 103-byte name behind its second '/': prefix "a/", name 100 x 'b'
     P.append(("pathname", "dslash-split", X(path=b"a//" + b"b" * 100), False))
